@@ -280,7 +280,7 @@ impl<C: Config, Q: Query> Snapshot<C, Q> {
                 .executor_registry
                 .get_executor_entry_by_type_id(&callee.stable_type_id());
 
-            let _ = entry
+            let repaired = entry
                 .repair_query_from_query_id(
                     engine,
                     &callee.compact_hash_128(),
@@ -298,6 +298,15 @@ impl<C: Config, Q: Query> Snapshot<C, Q> {
                     ),
                 )
                 .await;
+
+            // The callee is (transitively) waiting for this very query: an
+            // input change has closed a dependency cycle. The callee's stored
+            // fingerprint is the one from before it started recomputing, so
+            // comparing against it would wrongly declare this query clean.
+            // Re-run it instead, so that it meets the cycle signal itself.
+            if repaired.is_err() {
+                return CalleeCheckDecision::Recompute;
+            }
         }
 
         #[cfg(feature = "verif_hooks")]
